@@ -321,3 +321,240 @@ pub fn c07_cases(rng: &mut Rng, tier: &str, out: &mut Out) {
         });
     }
 }
+
+// ====================================================================================== c07-model
+// Work package c07rng: model-compared rows (coq/theories/RunC07.v), scaled build.
+
+fn jrows(rows: &[Vec<u8>]) -> serde_json::Value {
+    serde_json::Value::Array(rows.iter().map(|r| jbytes(r)).collect())
+}
+
+/// the names of the footer of a block stream, in stored (HashMap iteration) order
+fn footer_names_c07(inner: &[u8]) -> Option<Vec<Vec<u8>>> {
+    if inner.len() < 4 {
+        return None;
+    }
+    let fl = u32::from_le_bytes(inner[inner.len() - 4..].try_into().ok()?) as usize;
+    if fl + 4 > inner.len() {
+        return None;
+    }
+    let f = &inner[inner.len() - 4 - fl..inner.len() - 4];
+    let mut p = 0usize;
+    let u64at = |p: &mut usize| -> Option<u64> {
+        let v = u64::from_le_bytes(f.get(*p..*p + 8)?.try_into().ok()?);
+        *p += 8;
+        Some(v)
+    };
+    let n = u64at(&mut p)?;
+    let mut names = Vec::new();
+    for _ in 0..n {
+        let nl = u64at(&mut p)? as usize;
+        names.push(f.get(p..p + nl)?.to_vec());
+        p += nl;
+        let no = u64at(&mut p)? as usize;
+        p += 8 * no + 16;
+    }
+    if p != fl { None } else { Some(names) }
+}
+
+/// remove the encryption layer with `aes-gcm` alone (scaled: CHUNK = 64, TAG = 16)
+fn open_body_c07(key: &[u8], nonce: &[u8], body: &[u8]) -> Result<Vec<u8>, String> {
+    use aes_gcm::aead::{Aead, KeyInit, Payload};
+    let c = aes_gcm::Aes256Gcm::new_from_slice(key).map_err(|_| "key length")?;
+    let mut plain = Vec::new();
+    let mut p = 0usize;
+    let mut i = 0u32;
+    while p < body.len() {
+        let l = (body.len() - p).min(64 + 16);
+        if l < 16 {
+            return Err(format!("{} stray bytes at the end of the body", l));
+        }
+        let mut n = [0u8; 12];
+        n[..8].copy_from_slice(nonce);
+        n[8..].copy_from_slice(&i.to_be_bytes());
+        let m = c.decrypt((&n).into(), Payload { msg: &body[p..p + l], aad: b"" })
+            .map_err(|_| format!("chunk {i} at body offset {p} does not authenticate under the configuration's key and nonce ++ BE32({i}): bytes that did not go through the cipher?"))?;
+        plain.extend_from_slice(&m);
+        p += l;
+        i += 1;
+    }
+    Ok(plain)
+}
+
+#[cfg(feature = "scaled")]
+pub fn c07_model_cases(rng: &mut Rng, tier: &str, out: &mut Out) {
+    use rand::{Rng as _, RngCore, SeedableRng};
+    let thorough = tier == "thorough";
+    // ---- (a) body of ENCRYPT-only archives, flushes at random positions == enc_format (concrete AES-GCM)
+    let na = if thorough { 80 } else { 16 };
+    for k in 0..na {
+        let nfiles = rng.range(1, 3) as usize;
+        let names: Vec<Vec<u8>> = (0..nfiles).map(|f| format!("n{k}-{f}-{}", hex::encode(rng.bytes(3))).into_bytes()).collect();
+        let recs = vec![PublicKey::from(&fixed_secret(1))];
+        let mut cfg = ArchiveWriterConfig::new();
+        cfg.set_layers(layers_of(L_ENC));
+        cfg.add_public_keys(&recs);
+        let key = cfg.encryption_key().to_vec();
+        let nonce = cfg.encryption_nonce().to_vec();
+        let mut calls: Vec<Vec<u64>> = Vec::new();
+        let mut contents: Vec<Vec<u8>> = vec![Vec::new(); nfiles];
+        let mut flushes = 0usize;
+        let mut pieces: Vec<Vec<u8>> = Vec::new();
+        let res: Result<Vec<u8>, String> = (|| {
+            let mut w = ArchiveWriter::from_config(Vec::new(), cfg).map_err(|e| format!("{e:?}"))?;
+            let mut maybe_flush = |w: &mut ArchiveWriter<Vec<u8>>, calls: &mut Vec<Vec<u64>>, rng: &mut Rng| -> Result<(), String> {
+                let n = *rng.pick(&[0usize, 0, 1, 1, 2]);
+                for _ in 0..n {
+                    w.flush().map_err(|e| format!("flush: {e:?}"))?;
+                    calls.push(vec![4]);
+                    flushes += 1;
+                }
+                Ok(())
+            };
+            let mut ids = Vec::new();
+            for n in &names {
+                maybe_flush(&mut w, &mut calls, rng)?;
+                let id = w.start_file(std::str::from_utf8(n).unwrap()).map_err(|e| format!("{e:?}"))?;
+                let mut c = vec![0u64];
+                c.extend(n.iter().map(|b| *b as u64));
+                calls.push(c);
+                ids.push(id);
+            }
+            let npieces = rng.range(1, 5);
+            for _ in 0..npieces {
+                let f = rng.below(nfiles as u64) as usize;
+                let l = *rng.pick(&[0usize, 1, 23, 24, 25, 40, 63, 64, 65, 100, 130]);
+                let data = rng.bytes(l);
+                maybe_flush(&mut w, &mut calls, rng)?;
+                w.append_file_content(ids[f], data.len() as u64, data.as_slice()).map_err(|e| format!("{e:?}"))?;
+                let mut c = vec![1u64, ids[f]];
+                c.extend(data.iter().map(|b| *b as u64));
+                calls.push(c);
+                contents[f].extend_from_slice(&data);
+                pieces.push(data);
+            }
+            for id in &ids {
+                maybe_flush(&mut w, &mut calls, rng)?;
+                w.end_file(*id).map_err(|e| format!("{e:?}"))?;
+                calls.push(vec![2, *id]);
+            }
+            maybe_flush(&mut w, &mut calls, rng)?;
+            w.finalize().map_err(|e| format!("{e:?}"))?;
+            Ok(w.into_raw())
+        })();
+        let id = format!("c07-body-{k}");
+        let bytes = match res {
+            Ok(b) => b,
+            Err(e) => {
+                out.case(&Case { id, model_fn: "", args: vec![], imp: json!([]), oracle_ok: false, oracle_msg: format!("valid writer calls failed: {e}"),
+                                 class: "body build-failed".into(), nontrivial: true, meta: json!({}) });
+                continue;
+            }
+        };
+        let mut c = Cursor::new(bytes.as_slice());
+        let hl = match ArchiveHeader::from(&mut c) { Ok(_) => c.position() as usize, Err(_) => 0 };
+        let body = &bytes[hl..];
+        // oracle (aes-gcm only): every byte after the header belongs to a chunk that authenticates under the
+        // configuration's key / nonce, and the decrypted stream holds the names and contents written
+        let mut msg: Option<String> = None;
+        let mut names_order: Vec<Vec<u8>> = Vec::new();
+        match open_body_c07(&key, &nonce, body) {
+            Ok(plain) => {
+                for (n, ct) in names.iter().zip(contents.iter()) {
+                    if find_sub(&plain, n).is_none() { msg = Some("a file name is missing from the decrypted body".into()); }
+                    let _ = ct;
+                    for w in n.windows(8.min(n.len())) {
+                        if find_sub(body, w).is_some() { msg = Some("8 bytes of a file name appear in clear in the body".into()); }
+                    }
+                }
+                for pc in &pieces {
+                    if !pc.is_empty() && find_sub(&plain, pc).is_none() { msg = Some("a piece of content is missing from the decrypted body".into()); }
+                    if pc.len() >= 8 && find_sub(body, &pc[..8]).is_some() { msg = Some("8 bytes of a file content appear in clear in the body".into()); }
+                }
+                match footer_names_c07(&plain) { Some(v) => names_order = v, None => msg = Some("the decrypted body has no parsable footer".into()) }
+            }
+            Err(e) => msg = Some(e),
+        }
+        let ntab = body.len() / 80 + 2;
+        let rows = vec![vec![0u64], body.iter().map(|b| *b as u64).collect::<Vec<u64>>()];
+        out.case(&Case {
+            id, model_fn: if msg.is_none() { "c07_body" } else { "" },
+            args: vec![jbytes(&key), jbytes(&nonce), json!(ntab), jrows(&names_order), json!(calls)],
+            imp: json!(rows), oracle_ok: msg.is_none(), oracle_msg: msg.unwrap_or_default(),
+            class: format!("body files={nfiles} flushes={} chunks={}", match flushes { 0 => "0", 1..=2 => "1-2", _ => "3+" }, match body.len() / 80 { 0 => "1", 1..=2 => "2-3", _ => "4+" }),
+            nontrivial: contents.iter().any(|c| !c.is_empty()) || flushes > 0,
+            meta: json!({"flushes": flushes, "body_len": body.len()}),
+        });
+    }
+    // ---- (b) the generator machine: ChaChaRng::from_seed(seed) == Fresh.key_of / nonce_of / eph_of (concrete ChaCha20)
+    let nb = if thorough { 40 } else { 10 };
+    for k in 0..nb {
+        let mut seed = [0u8; 32];
+        if k > 0 { seed.copy_from_slice(&rng.bytes(32)); }
+        let mut g = rand_chacha::ChaChaRng::from_seed(seed);
+        let key = g.random::<[u8; 32]>();
+        let nonce = g.random::<[u8; 8]>();
+        let mut g2 = rand_chacha::ChaChaRng::from_seed(seed);
+        let mut eph = [0u8; 32];
+        g2.fill_bytes(&mut eph);
+        // oracle (restated independently): the raw stream once, every fourth byte of it
+        let mut g3 = rand_chacha::ChaChaRng::from_seed(seed);
+        let mut raw = [0u8; 160];
+        g3.fill_bytes(&mut raw);
+        let every4: Vec<u8> = raw.iter().step_by(4).cloned().collect();
+        let ok = every4[..32] == key[..] && every4[32..40] == nonce[..] && raw[..32] == eph[..];
+        out.case(&Case {
+            id: format!("c07-draw-{k}"), model_fn: "c07_draw", args: vec![jbytes(&seed)],
+            imp: jrows(&[key.to_vec(), nonce.to_vec(), eph.to_vec()]), oracle_ok: ok,
+            oracle_msg: if ok { String::new() } else { "key / nonce are not the low bytes of the first 32 / next 8 output words, or fill_bytes(32) is not output bytes 0..31".into() },
+            class: "draw".into(), nontrivial: true, meta: json!({}),
+        });
+    }
+    // ---- (c) builder-path matrix
+    let fixed: Vec<Vec<Vec<u64>>> = vec![
+        vec![], vec![vec![0, 1]], vec![vec![0, 1], vec![0, 2]], vec![vec![1, 1]], vec![vec![1, 1], vec![1, 2], vec![0, 1]],
+        vec![vec![2, 1]], vec![vec![2, 3], vec![1, 2]], vec![vec![3, 1]], vec![vec![3, 0], vec![3, 2], vec![3, 1]],
+        vec![vec![0, 1], vec![3, 1], vec![1, 1], vec![0, 1]], vec![vec![4, 0]], vec![vec![4, 12], vec![4, 11], vec![0, 2]],
+        vec![vec![2, 0], vec![3, 1], vec![2, 1]], vec![vec![1, 3], vec![0, 3], vec![3, 2], vec![4, 9], vec![1, 2]],
+    ];
+    let nrand = if thorough { 40 } else { 6 };
+    let mut seqs = fixed;
+    for _ in 0..nrand {
+        let n = rng.range(1, 7);
+        seqs.push((0..n).map(|_| { let op = rng.below(5); vec![op, match op { 3 => rng.below(3), 4 => rng.below(14), _ => rng.range(0, 3) }] }).collect());
+    }
+    let mut seen: Vec<(Vec<u8>, Vec<u8>)> = Vec::new();
+    for (k, seq) in seqs.iter().enumerate() {
+        for start in 0..2u64 {
+            let mut cfg = if start == 0 { ArchiveWriterConfig::new() } else { ArchiveWriterConfig::default() };
+            let key0 = cfg.encryption_key().to_vec();
+            let nonce0 = cfg.encryption_nonce().to_vec();
+            for op in seq {
+                match op[0] {
+                    0 => { cfg.enable_layer(mla::Layers::from_bits_retain(op[1] as u8)); }
+                    1 => { cfg.disable_layer(mla::Layers::from_bits_retain(op[1] as u8)); }
+                    2 => { cfg.set_layers(mla::Layers::from_bits_retain(op[1] as u8)); }
+                    3 => { let ks: Vec<PublicKey> = (0..op[1]).map(|i| PublicKey::from(&fixed_secret(i))).collect(); cfg.add_public_keys(&ks); }
+                    _ => { let _ = cfg.with_compression_level(op[1] as u32); }
+                }
+            }
+            let key1 = cfg.encryption_key().to_vec();
+            let nonce1 = cfg.encryption_nonce().to_vec();
+            let enc = cfg.is_layers_enabled(mla::Layers::ENCRYPT) as u8;
+            let comp = cfg.is_layers_enabled(mla::Layers::COMPRESS) as u8;
+            let chk = if cfg.check().is_ok() { 0u8 } else { 1 };
+            let mut msg = None;
+            if key0 != key1 || nonce0 != nonce1 { msg = Some("a builder changed the key or the nonce of the configuration".to_string()); }
+            if key1.iter().all(|b| *b == 0) || nonce1.iter().all(|b| *b == 0) { msg = Some("all-zero key or nonce after the builders".into()); }
+            if seen.iter().any(|(a, b)| *a == key1 || *b == nonce1) { msg = Some("two configurations share the key or the nonce".into()); }
+            seen.push((key1.clone(), nonce1.clone()));
+            out.case(&Case {
+                id: format!("c07-builders-{k}-{start}"), model_fn: "c07_builders",
+                args: vec![json!(start), jbytes(&key0), jbytes(&nonce0), json!(seq)],
+                imp: jrows(&[vec![enc, comp], key1, nonce1, vec![chk]]), oracle_ok: msg.is_none(), oracle_msg: msg.unwrap_or_default(),
+                class: format!("builders start={} len={}", if start == 0 { "new" } else { "default" }, match seq.len() { 0 => "0", 1 => "1", 2..=3 => "2-3", _ => "4+" }),
+                nontrivial: !seq.is_empty(), meta: json!({"seq": seq}),
+            });
+        }
+    }
+}
